@@ -154,11 +154,30 @@ func vpInstallHooks() {
 		}
 		return GetItemByType(t)
 	}
+	kind := vpHookKind
 	JSONItemUnmarshal = func(t ActivityVocabularyType, v *fastjson.Value, it Item) error {
+		// kind 0: a hook that loads whatever it is handed; 1: one that only knows its own type and leaves
+		// everything else alone; 2: one that refuses everything else. For names of the vocabulary the
+		// outcome is the same under all three, because the library does not consult the hook for them
+		// (seed C07-17: names missing from the Types list sent straight to the hook).
+		if kind != 0 && t != vpCustomType {
+			if kind == 2 {
+				return vpErrNotMine
+			}
+			return nil
+		}
 		return OnObject(it, func(o *Object) error { return JSONLoadObject(v, o) })
 	}
 	IsNotEmpty = func(it Item) bool { return NotEmpty(it) }
 }
+
+var vpHookKind int
+
+var vpErrNotMine = vpHookErr("not a type of this extension")
+
+type vpHookErr string
+
+func (e vpHookErr) Error() string { return string(e) }
 
 func vpC07Name() {
 	ci := vpChoice(len(vpVocabConsts))
@@ -170,12 +189,13 @@ func vpC07Name() {
 	}
 	hooks := vpBool()
 	if hooks {
+		vpHookKind = vpChoice(3)
 		vpInstallHooks()
 	}
 	name := c.Value
 	cell := string(name)
 	if hooks {
-		cell += "/hooks"
+		cell += "/hooks" + string(rune('0'+vpHookKind))
 	}
 	idc, txt := vpAlnum(), vpLower()
 	wantID := IRI("https://h.ex/" + string([]byte{idc}))
